@@ -259,7 +259,7 @@ def pick_text(rng, bg, thr, band):
 ALL_FEATURES = (
     "vars", "var-fallback", "var-undefined", "var-chain", "var-shared", "root-direct-color", "root-and-html",
     "important", "repeat-decl", "prop-case", "nesting", "bg-var", "keywords", "opaque-atrules", "vendor-hacks",
-    "star-hack", "non-ascii", "crlf", "bom", "cdo-cdc", "alpha-text", "comments", "no-color-rules", "odd-strings", "dup-root", "nested-root", "unicode-seps", "dup-selectors", "own-colour-elsewhere", "css-nesting", "comment-in-value", "stale-charset", "var-names", "nested-root-color",
+    "star-hack", "non-ascii", "crlf", "bom", "cdo-cdc", "alpha-text", "comments", "no-color-rules", "odd-strings", "dup-root", "nested-root", "unicode-seps", "dup-selectors", "own-colour-elsewhere", "css-nesting", "comment-in-value", "stale-charset", "var-names", "nested-root-color", "many-rules",
 )
 # features outside what the reference cascade of C08 models or what C08's statement quantifies over
 C09_ONLY = ("opaque-atrules", "vendor-hacks", "star-hack", "crlf", "bom", "odd-strings", "dup-root", "unicode-seps", "dup-selectors", "css-nesting", "comment-in-value", "stale-charset", "nested-root-color")
@@ -529,6 +529,8 @@ class SheetGen:
     def build(self):
         r, f = self.rng, self.feats
         n = r.randint(1, self.max_rules)
+        if "many-rules" in f:
+            n = r.randint(25, 60)  # a big stylesheet (volume-dependent behaviour: indices >= 10, caches, batching)
         items = []
         for _ in range(n):
             if "no-color-rules" in f and r.random() < 0.2:
